@@ -3,7 +3,8 @@
 #include "cc_cipher.h"
 #include "cc_curve.h"
 #include "cc_utils.h"
-static const fnent fns[] = { FNS_HASH, FNS_CIPHER, FNS_CURVE, FNS_UTILS };
+#include "cc_extra.h"
+static const fnent fns[] = { FNS_HASH, FNS_CIPHER, FNS_CURVE, FNS_UTILS, FNS_EXTRA };
 
 /* the opaque-state sizes the specification states must be the sizes the library reports */
 static void check_statebytes(void) {
